@@ -197,6 +197,15 @@ def _noparens(text):
     return text.replace("{{", "{").replace("}}", "}")
 
 
+_SUP = {"⁻": "-", "⁰": "0", "¹": "1", "²": "2", "³": "3", "⁴": "4", "⁵": "5", "⁶": "6", "⁷": "7", "⁸": "8", "⁹": "9"}
+
+
+def _expnorm(text):
+    """exponents in one spelling: A² -> A^2, A⁻² -> A^-2, A^(1/2) -> A^1/2"""
+    text = re.sub("[%s]+" % "".join(_SUP), lambda m: "^" + "".join(_SUP[ch] for ch in m.group(0)), text)
+    return re.sub(r"\^\(([-0-9/ ]+)\)", lambda m: "^" + m.group(1).replace(" ", ""), text)
+
+
 def evaluate(cx, source, setup, c, o):
     """one G case / J line: spec prediction c, observation o.  Returns 'skipped' | 'ok' | 'violation'"""
     rep = cx.rep
@@ -240,14 +249,21 @@ def evaluate(cx, source, setup, c, o):
                 expected2 = predicted2
         if e["echo"] != expected2:
             diff = ("not-a-fixpoint", "echo of the echo: %r" % e["echo"])
+            if close and binding == "between":
+                # a partially repaired printer and a re-associating echo: the predicted second text is known up to the
+                # parentheses only
+                loose = {_noparens(t) for t in (second(c, "p"), second(c, "r")) if t is not None}
+                if _noparens(e["echo"]) in loose:
+                    diff = None
     if diff is None:
         if len(cx.ok_samples) < 50 and "(" in c["i"]:
             cx.ok_samples.append((source, setup, c, o))
         return "ok"
     tags = list(c.get("d", []))
-    if diff[0] == "not-a-fixpoint" and not tags and predicted2 is not None and e["echo"] == predicted2 and c.get("r2", "=") == "=":
-        # the rules predict exactly this second text (the annotation printer spells exponents differently from the
-        # inferred-type printer), and the repaired rules are a fixpoint
+    if diff[0] == "not-a-fixpoint" and not tags and c.get("r2", "=") == "=" and (
+            (predicted2 is not None and e["echo"] == predicted2) or _expnorm(e["echo"]) == _expnorm(echo)):
+        # the two texts differ only in how exponents in types are spelled (the annotation printer spells them differently
+        # from the inferred-type printer: the pinned rules predict this second text), and the repaired rules are a fixpoint
         tags = ["stmt/inferred-exponent-respelled"]
     v = {"kind": diff[0], "detail": diff[1], "source": source, "setup": setup, "input": c["i"], "probes": c.get("pr", []),
          "echo": echo, "reecho": e.get("echo"), "binding": binding, "tags": tags, "reassociated": close,
